@@ -400,6 +400,15 @@ def run(ctx):
     ctx.require('R-PARALLEL element cursors', nc, 40)
     from . import C20   # tag queries collect into Set<Tag>, remapping goes through TagMap: the table obligations are C20's, shared
     C20.check_tables(ctx, db)
+    # copies made by Library::copy_from / Cell::copy_from go through the element copy_from methods: none of them may read a field
+    # of the destination before writing it (e.g. the destination's own reference tag)
+    from .. import copyrule
+    ncp = 0
+    for f in db.functions:
+        if f.name == 'copy_from' and f.body is not None and (f.relfile().startswith('src/') or f.relfile().startswith('include/gdstk/')) and not f.targs:
+            ctx.touch(f)
+            ncp += copyrule.check_destination_reads(ctx, f, label='%s::copy_from' % (f.rec or '?').replace('gdstk::', ''))
+    ctx.require('R-COPY.read-before-write copy_from methods', ncp, 15)
 
 
 MANIFEST = dict(
